@@ -278,4 +278,263 @@ theorem exists_min_mem {γ : Type} [LinearOrder γ] (f : β → γ) : ∀ {l : L
 
 end walk
 
+/-! ### strictly convex polygons -/
+
+/-- every vertex is on the closed left side of every edge -/
+theorem convex_nonneg {poly : List (α × α)} (hcv : StrictConvexCCW poly) {e : (α × α) × (α × α)}
+    (he : e ∈ edges poly) {v : α × α} (hv : v ∈ poly) : 0 ≤ cross e.1 e.2 v := by
+  by_cases h1 : v = e.1
+  · rw [h1, cross_self_left]
+  by_cases h2 : v = e.2
+  · rw [h2, cross_self_right]
+  exact (hcv e he v hv h1 h2).le
+
+/-- the point at height `y` of any straddling edge is on the closed left side of every edge -/
+theorem level_point_nonneg {poly : List (α × α)} (hcv : StrictConvexCCW poly) {g e : (α × α) × (α × α)}
+    (hg : g ∈ edges poly) (he : e ∈ edges poly) {y : α} (hs : straddle y e.1 e.2 = true) :
+    0 ≤ cross g.1 g.2 (xint y e.1 e.2, y) := by
+  obtain ⟨t0, t1⟩ := tpar_mem hs
+  rw [level_point hs]
+  exact cross_seg_nonneg t0 t1 (convex_nonneg hcv hg (mem_edges he).1) (convex_nonneg hcv hg (mem_edges he).2)
+
+theorem up_edge_unique {poly : List (α × α)} (hnd : poly.Nodup) (hcv : StrictConvexCCW poly) {y : α}
+    {e e' : (α × α) × (α × α)} (he : e ∈ edges poly) (he' : e' ∈ edges poly)
+    (hu : isUp y e.1 e.2 = true) (hu' : isUp y e'.1 e'.2 = true) : e = e' := by
+  by_contra hne
+  have h11 : e'.1 ≠ e.1 := fun h => hne (edge_eq_of_fst hnd he he' h.symm)
+  have h22 : e'.2 ≠ e.2 := fun h => hne (edge_eq_of_snd hnd he he' h.symm)
+  obtain ⟨a1, a2⟩ := isUp_iff.mp hu
+  obtain ⟨b1, b2⟩ := isUp_iff.mp hu'
+  have h12 : e'.1 ≠ e.2 := by intro h; rw [h] at b1; linarith
+  have h21 : e'.2 ≠ e.1 := by intro h; rw [h] at b2; linarith
+  have c1 := hcv e he e'.1 (mem_edges he').1 h11 h12
+  have c2 := hcv e he e'.2 (mem_edges he').2 h21 h22
+  have d1 := hcv e' he' e.1 (mem_edges he).1 h11.symm h21.symm
+  have d2 := hcv e' he' e.2 (mem_edges he).2 h12.symm h22.symm
+  have hs := isUp_straddle hu
+  have hs' := isUp_straddle hu'
+  obtain ⟨t0, t1⟩ := tpar_mem hs
+  obtain ⟨t0', t1'⟩ := tpar_mem hs'
+  have q' : 0 < cross e.1 e.2 (xint y e'.1 e'.2, y) := by
+    rw [level_point hs']; exact cross_seg_pos t0' t1' c1 c2
+  have q : 0 < cross e'.1 e'.2 (xint y e.1 e.2, y) := by
+    rw [level_point hs]; exact cross_seg_pos t0 t1 d1 d2
+  rw [cross_pos_up hu] at q'
+  rw [cross_pos_up hu'] at q
+  exact lt_asymm q q'
+
+theorem down_edge_unique {poly : List (α × α)} (hnd : poly.Nodup) (hcv : StrictConvexCCW poly) {y : α}
+    {e e' : (α × α) × (α × α)} (he : e ∈ edges poly) (he' : e' ∈ edges poly)
+    (hu : isDown y e.1 e.2 = true) (hu' : isDown y e'.1 e'.2 = true) : e = e' := by
+  by_contra hne
+  have h11 : e'.1 ≠ e.1 := fun h => hne (edge_eq_of_fst hnd he he' h.symm)
+  have h22 : e'.2 ≠ e.2 := fun h => hne (edge_eq_of_snd hnd he he' h.symm)
+  obtain ⟨a1, a2⟩ := isDown_iff.mp hu
+  obtain ⟨b1, b2⟩ := isDown_iff.mp hu'
+  have h12 : e'.1 ≠ e.2 := by intro h; rw [h] at b2; linarith
+  have h21 : e'.2 ≠ e.1 := by intro h; rw [h] at b1; linarith
+  have c1 := hcv e he e'.1 (mem_edges he').1 h11 h12
+  have c2 := hcv e he e'.2 (mem_edges he').2 h21 h22
+  have d1 := hcv e' he' e.1 (mem_edges he).1 h11.symm h21.symm
+  have d2 := hcv e' he' e.2 (mem_edges he).2 h12.symm h22.symm
+  have hs := isDown_straddle hu
+  have hs' := isDown_straddle hu'
+  obtain ⟨t0, t1⟩ := tpar_mem hs
+  obtain ⟨t0', t1'⟩ := tpar_mem hs'
+  have q' : 0 < cross e.1 e.2 (xint y e'.1 e'.2, y) := by
+    rw [level_point hs']; exact cross_seg_pos t0' t1' c1 c2
+  have q : 0 < cross e'.1 e'.2 (xint y e.1 e.2, y) := by
+    rw [level_point hs]; exact cross_seg_pos t0 t1 d1 d2
+  rw [cross_pos_down hu] at q'
+  rw [cross_pos_down hu'] at q
+  exact lt_asymm q q'
+
+theorem corner_identity (u v w P : α × α) :
+    (u.2 - v.2) * cross v w P + (w.2 - v.2) * cross u v P = (P.2 - v.2) * cross u v w := by
+  unfold cross; ring
+
+/-- a point strictly left of both edges at a convex corner `u → v → w` cannot lie at or below the corner when
+the corner is a lowest vertex … -/
+theorem corner_low {u v w P : α × α} (A : 0 < cross v w P) (B : 0 < cross u v P) (C : 0 < cross u v w)
+    (hu : v.2 ≤ u.2) (hw : v.2 ≤ w.2) (hP : P.2 ≤ v.2) : False := by
+  have hid := corner_identity u v w P
+  have h1 : 0 ≤ (u.2 - v.2) * cross v w P := mul_nonneg (by linarith) A.le
+  have h2 : 0 ≤ (w.2 - v.2) * cross u v P := mul_nonneg (by linarith) B.le
+  have h3 : (P.2 - v.2) * cross u v w ≤ 0 := mul_nonpos_of_nonpos_of_nonneg (by linarith) C.le
+  have e1 : (u.2 - v.2) * cross v w P = 0 := by linarith
+  have e2 : (w.2 - v.2) * cross u v P = 0 := by linarith
+  have hu' : u.2 = v.2 := by
+    rcases mul_eq_zero.mp e1 with h | h
+    · linarith
+    · exact absurd h A.ne'
+  have hw' : w.2 = v.2 := by
+    rcases mul_eq_zero.mp e2 with h | h
+    · linarith
+    · exact absurd h B.ne'
+  have : cross u v w = 0 := by unfold cross; rw [hu', hw']; ring
+  exact absurd this C.ne'
+
+/-- … nor strictly above it when the corner is a highest vertex -/
+theorem corner_high {u v w P : α × α} (A : 0 < cross v w P) (B : 0 < cross u v P) (C : 0 < cross u v w)
+    (hu : u.2 ≤ v.2) (hw : w.2 ≤ v.2) (hP : v.2 < P.2) : False := by
+  have hid := corner_identity u v w P
+  have h1 : (u.2 - v.2) * cross v w P ≤ 0 := mul_nonpos_of_nonpos_of_nonneg (by linarith) A.le
+  have h2 : (w.2 - v.2) * cross u v P ≤ 0 := mul_nonpos_of_nonpos_of_nonneg (by linarith) B.le
+  have h3 : 0 < (P.2 - v.2) * cross u v w := mul_pos (by linarith) C
+  linarith
+
+/-- the three consecutive vertices around any vertex of a polygon with at least 3 distinct vertices -/
+theorem exists_corner {poly : List (α × α)} (hn : 3 ≤ poly.length) (hnd : poly.Nodup) {v : α × α}
+    (hv : v ∈ poly) : ∃ u w : α × α, (u, v) ∈ edges poly ∧ (v, w) ∈ edges poly ∧ u ∈ poly ∧ w ∈ poly ∧
+      w ≠ u ∧ w ≠ v := by
+  obtain ⟨k, u, w, rest, hrot⟩ := exists_rotate_second hv hn
+  have hnd' : (u :: v :: w :: rest).Nodup := hrot ▸ List.nodup_rotate.mpr hnd
+  have hperm := edges_rotate_perm poly k
+  rw [hrot] at hperm
+  have he1 : (u, v) ∈ edges (u :: v :: w :: rest) := by simp [edges, edgesFrom]
+  have he2 : (v, w) ∈ edges (u :: v :: w :: rest) := by simp [edges, edgesFrom]
+  have hu : u ∈ poly := List.mem_rotate.mp (hrot ▸ List.mem_cons_self ..)
+  have hw : w ∈ poly := by
+    have : w ∈ poly.rotate k := by rw [hrot]; simp
+    exact List.mem_rotate.mp this
+  simp only [List.nodup_cons, List.mem_cons, not_or] at hnd'
+  exact ⟨u, w, hperm.subset he1, hperm.subset he2, hu, hw, fun h => hnd'.1.2.1 h.symm,
+    fun h => hnd'.2.1.1 h.symm⟩
+
+/-- a point strictly inside (left of every edge of) a strictly convex polygon has vertices strictly below it … -/
+theorem exists_below_of_leftOfAll {poly : List (α × α)} {pt : α × α} (hn : 3 ≤ poly.length) (hnd : poly.Nodup)
+    (hcv : StrictConvexCCW poly) (hleft : LeftOfAll poly pt) : ∃ v ∈ poly, below pt.2 v.2 = true := by
+  by_contra hc
+  push Not at hc
+  have hne : poly ≠ [] := by intro h; rw [h] at hn; simp at hn
+  obtain ⟨v, hv, hmin⟩ := exists_min_mem (fun q : α × α => q.2) hne
+  obtain ⟨u, w, he1, he2, hu, hw, hwu, hwv⟩ := exists_corner hn hnd hv
+  have hP : pt.2 ≤ v.2 := by
+    have := hc v hv
+    simpa [below] using this
+  exact corner_low (hleft _ he2) (hleft _ he1) (hcv _ he1 w hw hwu hwv) (hmin u hu) (hmin w hw) hP
+
+/-- … and vertices at or above it -/
+theorem exists_notBelow_of_leftOfAll {poly : List (α × α)} {pt : α × α} (hn : 3 ≤ poly.length) (hnd : poly.Nodup)
+    (hcv : StrictConvexCCW poly) (hleft : LeftOfAll poly pt) : ∃ v ∈ poly, below pt.2 v.2 = false := by
+  by_contra hc
+  push Not at hc
+  have hne : poly ≠ [] := by intro h; rw [h] at hn; simp at hn
+  obtain ⟨v, hv, hmax⟩ := exists_min_mem (fun q : α × α => -q.2) hne
+  obtain ⟨u, w, he1, he2, hu, hw, hwu, hwv⟩ := exists_corner hn hnd hv
+  have hP : v.2 < pt.2 := by
+    have := hc v hv
+    simpa [below] using this
+  have h1 := hmax u hu
+  have h2 := hmax w hw
+  simp only [neg_le_neg_iff] at h1 h2
+  exact corner_high (hleft _ he2) (hleft _ he1) (hcv _ he1 w hw hwu hwv) h1 h2 hP
+
+/-! ### the two directions -/
+
+/-- strictly left of every edge ⇒ the crossing test fires exactly on the edges going up through the level of the
+point -/
+theorem crossR_eq_isUp_of_left {x y : α} {p1 p2 : α × α} (hl : 0 < cross p1 p2 (x, y)) :
+    crossR x y p1 p2 = isUp y p1 p2 := by
+  unfold crossR; rw [straddle_eq_up_or_down]
+  cases hu : isUp y p1 p2
+  · cases hd : isDown y p1 p2
+    · rfl
+    · have := (cross_pos_down hd).mp hl
+      simp [not_lt.mpr this.le]
+  · have := (cross_pos_up hu).mp hl
+    simp [this]
+
+theorem evenOdd_of_leftOfAll {poly : List (α × α)} {pt : α × α} (hn : 3 ≤ poly.length) (hnd : poly.Nodup)
+    (hcv : StrictConvexCCW poly) (hleft : LeftOfAll poly pt) : evenOdd poly pt = true := by
+  have h1 : evenOdd poly pt = parity ((edges poly).map fun e => isUp pt.2 e.1 e.2) := by
+    unfold evenOdd
+    apply parity_map_congr
+    intro e he
+    exact crossR_eq_isUp_of_left (hleft e he)
+  rw [h1]
+  obtain ⟨v, hv, hvb⟩ := exists_below_of_leftOfAll hn hnd hcv hleft
+  obtain ⟨w, hw, hwb⟩ := exists_notBelow_of_leftOfAll hn hnd hcv hleft
+  obtain ⟨e, he, hs1, hs2⟩ := exists_switch_cycle (fun q : α × α => below pt.2 q.2) ⟨v, hv, hvb⟩ ⟨w, hw, hwb⟩
+  have hup : isUp pt.2 e.1 e.2 = true := by
+    simp only [isUp]
+    rw [show below pt.2 e.1.2 = true from hs1, show below pt.2 e.2.2 = false from hs2]; rfl
+  rw [parity_at_most_one (g := fun e => isUp pt.2 e.1 e.2) (edges_nodup hnd) he
+    (fun b hb hgb => up_edge_unique hnd hcv hb he hgb hup)]
+  exact hup
+
+theorem crossR_split (x y : α) (p1 p2 : α × α) :
+    crossR x y p1 p2 = xor (isUp y p1 p2 && decide (x < xint y p1 p2)) (isDown y p1 p2 && decide (x < xint y p1 p2)) := by
+  unfold crossR straddle isUp isDown
+  cases below y p1.2 <;> cases below y p2.2 <;> cases decide (x < xint y p1 p2) <;> rfl
+
+/-- in a strictly convex polygon: if the even-odd rule accepts the point, there are exactly one edge `e` going up and
+one edge `f` going down through its level, and the point lies strictly between them -/
+theorem between_of_evenOdd {poly : List (α × α)} {pt : α × α} (hnd : poly.Nodup)
+    (hcv : StrictConvexCCW poly) (hoff : OffEdges poly pt) (hin : evenOdd poly pt = true) :
+    ∃ e ∈ edges poly, ∃ f ∈ edges poly, isUp pt.2 e.1 e.2 = true ∧ isDown pt.2 f.1 f.2 = true ∧
+      xint pt.2 f.1 f.2 < pt.1 ∧ pt.1 < xint pt.2 e.1 e.2 := by
+  -- some edge is crossed, hence straddles
+  have hex : ∃ e0 ∈ edges poly, crossR pt.1 pt.2 e0.1 e0.2 = true := by
+    by_contra hc
+    push Not at hc
+    have : evenOdd poly pt = false := parity_map_false fun e he => by simpa using hc e he
+    rw [this] at hin; cases hin
+  obtain ⟨e0, he0, hc0⟩ := hex
+  have hs0 := crossR_straddle hc0
+  -- so there are vertices on both sides
+  have hboth : (∃ v ∈ poly, below pt.2 v.2 = true) ∧ (∃ w ∈ poly, below pt.2 w.2 = false) := by
+    unfold straddle at hs0
+    cases h1 : below pt.2 e0.1.2 <;> cases h2 : below pt.2 e0.2.2
+    · rw [h1, h2] at hs0; cases hs0
+    · exact ⟨⟨_, (mem_edges he0).2, h2⟩, ⟨_, (mem_edges he0).1, h1⟩⟩
+    · exact ⟨⟨_, (mem_edges he0).1, h1⟩, ⟨_, (mem_edges he0).2, h2⟩⟩
+    · rw [h1, h2] at hs0; cases hs0
+  obtain ⟨⟨v, hv, hvb⟩, ⟨w, hw, hwb⟩⟩ := hboth
+  obtain ⟨e, he, hs1, hs2⟩ := exists_switch_cycle (fun q : α × α => below pt.2 q.2) ⟨v, hv, hvb⟩ ⟨w, hw, hwb⟩
+  obtain ⟨f, hf, hf1, hf2⟩ := exists_switch_cycle (fun q : α × α => !below pt.2 q.2)
+    ⟨w, hw, by simp [hwb]⟩ ⟨v, hv, by simp [hvb]⟩
+  have hup : isUp pt.2 e.1 e.2 = true := by
+    simp only [isUp]
+    rw [show below pt.2 e.1.2 = true from hs1, show below pt.2 e.2.2 = false from hs2]; rfl
+  have hdn : isDown pt.2 f.1 f.2 = true := by
+    simp only [isDown]; simp only [Bool.not_eq_eq_eq_not, Bool.not_true, Bool.not_false] at hf1 hf2
+    rw [hf1, hf2]; rfl
+  -- the parity splits over the unique up edge and the unique down edge
+  have hsplit : evenOdd poly pt =
+      xor (decide (pt.1 < xint pt.2 e.1 e.2)) (decide (pt.1 < xint pt.2 f.1 f.2)) := by
+    unfold evenOdd
+    rw [parity_map_congr (g := fun e' => xor (isUp pt.2 e'.1 e'.2 && decide (pt.1 < xint pt.2 e'.1 e'.2))
+      (isDown pt.2 e'.1 e'.2 && decide (pt.1 < xint pt.2 e'.1 e'.2))) (fun e' _ => crossR_split _ _ _ _),
+      parity_map_xor]
+    rw [parity_at_most_one (g := fun e' => isUp pt.2 e'.1 e'.2 && decide (pt.1 < xint pt.2 e'.1 e'.2))
+        (edges_nodup hnd) he (fun b hb hgb =>
+          up_edge_unique hnd hcv hb he (by simp only [Bool.and_eq_true] at hgb; exact hgb.1) hup),
+      parity_at_most_one (g := fun e' => isDown pt.2 e'.1 e'.2 && decide (pt.1 < xint pt.2 e'.1 e'.2))
+        (edges_nodup hnd) hf (fun b hb hgb =>
+          down_edge_unique hnd hcv hb hf (by simp only [Bool.and_eq_true] at hgb; exact hgb.1) hdn)]
+    simp only [hup, hdn, Bool.true_and]
+  -- convexity orders the two crossing abscissae
+  have hord : xint pt.2 f.1 f.2 ≤ xint pt.2 e.1 e.2 := by
+    have := level_point_nonneg hcv he hf (isDown_straddle hdn)
+    by_contra hc
+    have hlt := not_le.mp hc
+    have := (cross_pos_up (x := xint pt.2 f.1 f.2) hup).not.mpr (not_lt.mpr hlt.le)
+    have h0 : cross e.1 e.2 (xint pt.2 f.1 f.2, pt.2) = 0 := le_antisymm (not_lt.mp this) ‹_›
+    rw [cross_eq_mul (straddle_ne (isUp_straddle hup))] at h0
+    rcases mul_eq_zero.mp h0 with h | h
+    · exact straddle_ne (isUp_straddle hup) h
+    · linarith
+  rw [hsplit] at hin
+  have hne_e := hoff e he (isUp_straddle hup)
+  have hne_f := hoff f hf (isDown_straddle hdn)
+  refine ⟨e, he, f, hf, hup, hdn, ?_, ?_⟩
+  · by_contra hc
+    have h1 : pt.1 < xint pt.2 f.1 f.2 := lt_of_le_of_ne (not_lt.mp hc) hne_f
+    have h2 : pt.1 < xint pt.2 e.1 e.2 := lt_of_lt_of_le h1 hord
+    simp [h1, h2] at hin
+  · by_contra hc
+    have h1 : ¬ pt.1 < xint pt.2 f.1 f.2 := fun h => hc (lt_of_lt_of_le h hord)
+    simp [h1, hc] at hin
+
 end HydroVerif.C15
